@@ -170,9 +170,9 @@ def gen_value(src, T, good=True, depth=0):
         return ["tuple", items]
     if k == "bounded":
         lo = T[2].get("ge", 0)
-        return src.pick([lo, lo + 1, lo + 5]) if good else src.pick([lo - 1, lo - 5, "x", None])
+        return src.pick([lo, lo + 1, lo + 5]) if good else src.pick([lo - 1, lo - 5, "x", None, ["dict", []], ["dict", [["x", 1]]]])
     if k == "validated":
-        return src.pick(["a", "zz", " t "]) if good else src.pick(["", 1, None])
+        return src.pick(["a", "zz", " t "]) if good else src.pick(["", 1, None, ["dict", []], ["dict", [["x", 1]]]])
     if k == "list":
         n = src.choice(4)
         items = [gen_value(src, T[1], True, depth + 1) for _ in range(n)]
